@@ -223,10 +223,11 @@ func vfC08FreqPair(rows [][]uint8, sel []bool, w []float64, trows [][]uint8, tse
 
 var vfC08SetA = []uint8{0, 1, 1 | 4, 15}  // gap, A, R, N
 var vfC08SetB = []uint8{2, 2 | 8, 14}     // C, Y, B
-var vfC08SetC = []uint8{0, 4, 2 | 4 | 8}  // gap, G, B
+var vfC08SetC = []uint8{0, 4}             // gap, G
+var vfC08SetD = []uint8{2, 2 | 8}         // C, Y
 
 // H_C08_perm_columns_freq: the base frequencies estimated by probaNt are invariant under every permutation of the columns.
-// bounds: 2 rows; L=2 with codes in {gap, A, R, N}; L=3 with row 1 in {C, Y, B} and row 2 in {gap, G, B}; symbolic selectedSites, weights nil or dyadic k/2 (k=1..8); all L! permutations
+// bounds: 2 rows; L=2 with codes in {gap, A, R, N}; L=3 with row 1 in {C, Y} and row 2 in {gap, G}; symbolic selectedSites, weights nil or dyadic k/2 (k=1..8); all L! permutations
 // outside: other codes at these shapes (probaNt indexes a table with the code: the engine enumerates every cell), L>3; IEEE rounding is outside the claim: floats are exact reals
 func H_C08_perm_columns_freq() {
 	L := nondetRange(2, 3)
@@ -234,7 +235,7 @@ func H_C08_perm_columns_freq() {
 	if L == 2 {
 		r1, r2 = vfC08CodesIn(L, vfC08SetA), vfC08CodesIn(L, vfC08SetA)
 	} else {
-		r1, r2 = vfC08CodesIn(L, vfC08SetB), vfC08CodesIn(L, vfC08SetC)
+		r1, r2 = vfC08CodesIn(L, vfC08SetD), vfC08CodesIn(L, vfC08SetC)
 	}
 	sel := vfC08Sel(L)
 	w := vfC08Weights(L)
@@ -387,12 +388,14 @@ func H_C08_unit_weights() {
 // outside: other codes / shapes; IEEE rounding is outside the claim: floats are exact reals
 func H_C08_unit_weights_freq() {
 	L := 2
-	r1, r2 := vfC08CodesIn(L, vfC08SetA), vfC08CodesIn(L, vfC08SetA)
-	sel := vfC08Sel(L)
 	ones := []float64{1, 1}
-	verifReach("called")
-	vfC08FreqPair([][]uint8{r1, r2}, sel, nil, [][]uint8{r1, r2}, sel, ones, "base frequencies: unit weights == nil")
-
+	if nondetRange(0, 1) == 0 {
+		r1, r2 := vfC08CodesIn(L, vfC08SetA), vfC08CodesIn(L, vfC08SetA)
+		sel := vfC08Sel(L)
+		verifReach("called")
+		vfC08FreqPair([][]uint8{r1, r2}, sel, nil, [][]uint8{r1, r2}, sel, ones, "base frequencies: unit weights == nil")
+		return
+	}
 	al := align.NewAlign(align.NUCLEOTIDS)
 	names := []string{"s0", "s1"}
 	for r := 0; r < 2; r++ {
@@ -408,6 +411,7 @@ func H_C08_unit_weights_freq() {
 	rmgaps := nondetRange(0, 1) == 1
 	n0, sel0 := selectedSites(al, nil, rmgaps)
 	n1, sel1 := selectedSites(al, ones, rmgaps)
+	verifReach("sites")
 	verifAssert(n0 == n1 && len(sel0) == L && len(sel1) == L, "number of sites: unit weights == nil")
 	for j := 0; j < L; j++ {
 		verifAssert(sel0[j] == sel1[j], "selected sites do not depend on the weights")
